@@ -695,6 +695,10 @@ class ExprMixin:
                 if node.attr in e.members:
                     return VEnum(e, sort_info(e).consts[node.attr])
                 return VFunc(None, "enummethod:%s.%s" % (nm, node.attr))
+            if nm not in st.vars and nm not in st.alias and self.contract_stack and \
+                    "%s.%s" % (nm, node.attr) in self.contract_stack[-1].ignore:
+                self.assumptions.add("%s.%s is a logging-only class-level counter: reads arbitrary, writes dropped" % (nm, node.attr))
+                return VInt(z3.Int(fresh_name("ignored")))
             if nm not in st.vars and nm not in st.alias:
                 cv = self.class_const(nm, node.attr)
                 if cv is not None:
@@ -922,7 +926,8 @@ class ExprMixin:
         st.assume(res.n >= 0)
         st.assume(res.n <= src.n)
         st.assume(z3.ForAll([i], z3.Implies(z3.And(0 <= i, i < src.n, P),
-                                            z3.And(0 <= pos(i), pos(i) < res.n, z3.Select(res.a, pos(i)) == pack(elt), inv(pos(i)) == i))))
+                                            z3.And(0 <= pos(i), pos(i) < res.n, z3.Select(res.a, pos(i)) == pack(elt), inv(pos(i)) == i)),
+                            patterns=[z3.Select(src.a, i), pos(i)]))
         st.assume(z3.ForAll([j], z3.Implies(z3.And(0 <= j, j < res.n),
                                             z3.And(0 <= inv(j), inv(j) < src.n, z3.substitute(P, (i, inv(j))), pos(inv(j)) == j,
                                                    z3.Select(res.a, j) == z3.substitute(pack(elt), (i, inv(j)))))))
